@@ -269,11 +269,15 @@ func init() {
 			return nil, false
 		}
 		var skipBackslash bool
+		dotAll := true
 		switch pattern {
 		case `\\([^\\])`:
 			skipBackslash = false // a backslash followed by a backslash is not a match
 		case `(?s)\\(.)`:
 			skipBackslash = true
+		case `\\(.)`:
+			skipBackslash = true
+			dotAll = false // without the s flag the dot does not match a line feed
 		default:
 			return nil, false
 		}
@@ -282,7 +286,11 @@ func init() {
 		bs := e.tt.BV(8, '\\')
 		for i := 0; i < len(s); {
 			if i+1 < len(s) && e.branch(e.tt.Eq(s[i], bs)) {
-				if skipBackslash || !e.branch(e.tt.Eq(s[i+1], bs)) {
+				matches := skipBackslash || !e.branch(e.tt.Eq(s[i+1], bs))
+				if matches && !dotAll && e.branch(e.tt.Eq(s[i+1], e.tt.BV(8, '\n'))) {
+					matches = false
+				}
+				if matches {
 					out = append(out, s[i+1])
 					i += 2
 					continue
